@@ -22,11 +22,15 @@ RootData == { EmptyMap,
               [len |-> Nil],
               [a |-> Nil, b |-> "v2", len |-> "v2"] }
 
+\* values a root built by NewContextWithContext(ctx) finds in ctx
+RootWrapped == { [b |-> "v2"], [a |-> "v1", len |-> "v2"] }
+
 VARIABLE hist     \* the operations so far; the declarative oracle reads only this
-vars == <<outer, data, hist>>
+vars == <<outer, data, wrapped, hist>>
 
 Init == /\ outer = <<0>>
-        /\ \E d \in RootData : data = << Inject(d, 0) >> /\ hist = << [op |-> "root", d |-> d] >>
+        /\ \/ \E d \in RootData : data = << Inject(d, 0) >> /\ wrapped = EmptyMap /\ hist = << [op |-> "root", d |-> d, w |-> EmptyMap] >>
+           \/ \E w \in RootWrapped : data = << Inject(EmptyMap, 0) >> /\ wrapped = w /\ hist = << [op |-> "root", d |-> EmptyMap, w |-> w] >>
 
 NewChild(c) == /\ N < MaxCtx /\ Len(hist) <= MaxOps
                /\ NewCore(c, Inject(EmptyMap, c))
@@ -57,10 +61,11 @@ DLocalFrom(h, i, c, k) ==
        ELSE DLocalFrom(h, i - 1, c, k)
 DLocal(h, c, k) == DLocalFrom(h, Len(h), c, k)
 
-\* nearest context on the path to the root that has k; built-in helpers sit behind the root
+\* nearest context on the path to the root that has k; behind the root sit the built-in helpers, and
+\* behind those whatever the context.Context the root was built around answers
 RECURSIVE DValue(_, _, _)
 DValue(h, c, k) ==
-  IF c = 0 THEN (IF k \in HelperKeys THEN Builtin ELSE Nil)
+  IF c = 0 THEN (IF k \in HelperKeys THEN Builtin ELSE IF k \in DOMAIN h[1].w THEN h[1].w[k] ELSE Nil)
   ELSE IF DLocal(h, c, k) # Absent THEN DLocal(h, c, k)
   ELSE DValue(h, DParent(h, c), k)
 
